@@ -851,7 +851,7 @@ def main():
         "C06": lambda: check_diff("C06", tier, seed, quick=(6000, 90), thorough=(120000, 900), sanitize=True, memcheck=True, miri=True),
         "C07": lambda: check_diff("C07", tier, seed, quick=(4000, 90), thorough=(80000, 900)),
         "C08": lambda: check_diff("C08", tier, seed, level="fault_enumeration", quick=(3000, 90), thorough=(60000, 900)),
-        "C05": lambda: check_cmd("C05", tier, seed, "c05", 700, 12000, "exploration", C05_RULE, DIFF_ASSUME + [
+        "C05": lambda: check_cmd("C05", tier, seed, "c05", 1500, 25000, "exploration", C05_RULE, DIFF_ASSUME + [
             "non-termination is restated as: does not return within a window >= 100x the canonical time-to-cycle (a return inside the window is a definite violation; the converse is bounded)",
             "roaming divergence (never repeats a state) is outside the quantifier"], floors=[("spec.cycle_proved", 40), ("cycle.silent", 5), ("cycle.printing", 5), ("distinct_nontrivial", 20)], secs=(100, 1500)),
         "C11": lambda: check_cmd("C11", tier, seed, "c11", 1500, 40000, "exploration", C11_RULE, [
